@@ -267,6 +267,12 @@ sort_buf(uint8_t *src, uint8_t *buf, int64_t bufsize)
 static void
 write_stream(int fd, void *base, void *dst, const void *src, size_t size)
 {
+#ifdef OVNI_VERIF
+	/* Verification hook: with OVNI_VERIF_HEAPBUF the stream is a heap copy
+	 * of the file instead of a mapping, keep it in sync with the file */
+	if (getenv("OVNI_VERIF_HEAPBUF") != NULL)
+		memmove(dst, src, size);
+#endif
 	while (size > 0) {
 		off_t offset = (off_t) dst - (off_t) base;
 		ssize_t written = pwrite(fd, src, size, offset);
